@@ -27,3 +27,22 @@ claim("C03",
       "read before the elevation test.",
       "Trusts rustc MIR + extractor; that runAsElevated reflects the caller is C06; Forbidden => 403/no relay is C01.",
       "DESIGN.md §5 C03")
+
+claim("C05",
+      "resolved-callee header-mutation inventory + edge dominance + provenance of header values",
+      "Decides for every multiset of client headers that the claims, date and authorization headers reaching the host are the "
+      "proxy's: they are written with HeaderMap::insert (replace-all, case-insensitive) on the very request object that is "
+      "forwarded, the inserts dominate every send, their values derive from the connection's attested claims / the proxy clock / "
+      "the computed signature, and no other mutator touches that header map.",
+      "Trusts http::HeaderMap::insert semantics (documented), rustc MIR + extractor.",
+      "DESIGN.md §5 C05")
+
+claim("C04",
+      "provenance (sign-what-you-send), sibling agreement of the two canonicalisers, path-predicate tables, overwrite lint",
+      "Decides the structural clauses of the signing property: the head/body signed are the head/body forwarded and nothing but the "
+      "authorization insert happens after signing; header value format and provenance; both signing routes emit the same piece "
+      "sequence through the same helpers; compute_signature is the HMAC chain; the exemption predicate accepts exactly the two "
+      "documented pairs; the agent's own host calls are signed per a reviewed table; canonicalisers must not drop request items by "
+      "overwriting keyed inserts. Does not decide agreement with the host's canonicaliser or the hash arithmetic.",
+      "Trusts hmac_sha256/hex crates, rustc MIR + extractor; the host's canonicaliser is not in the repository.",
+      "DESIGN.md §5 C04")
